@@ -12,9 +12,9 @@ models of Model/CApi.lean say about one operation line.
                              determine the outcome: the C++ API decides; the harness prints `ok` or
                              `err cpp` there)
   eq <fn> …                  C result vs C++ result on the same inputs: the property demands `ok same`
-  sizeq0 <fn>                `pass` (the harness reports the length of the source)
-  sizeq <fn> <len> <cap|null>  the size-query helper of <fn> on a source of <len> cells and a buffer of
-                             <cap> cells
+  sizeq0 <fn> [T:<tensor> <dim>]   `pass` (the harness reports the length of the source)
+  sizeq <fn> <len> <cap|null> [T:<tensor> <dim>]  the size-query helper of <fn> on a source of <len> cells and a
+                             buffer of <cap> cells (the optional tail names the object the harness queries)
   st reset | st getmsg | st fail <kind> | st succ <kind>   status machine of the calling thread
   threads <kind>,<kind>,…    one thread per kind, each fails in its own way and reads its message back
 -/
@@ -96,11 +96,13 @@ def stepLine (s : DS) (line : String) : DS × String :=
     match findWrapper fn with
     | none => (s, "bad-op")
     | some _ => (⟨s.st, false⟩, "ok same")
-  | ["sizeq0", fn] =>
+  | "sizeq0" :: fn :: extra =>
+    if extra.length ≠ 0 && extra.length ≠ 2 then (s, "bad-op") else
     match findWrapper fn with
     | none => (s, "bad-op")
     | some w => if w.helper = "copy_vector_to_array" || w.helper = "copy_string_to_array" then (⟨s.st, false⟩, "pass") else (s, "bad-op")
-  | ["sizeq", fn, len, cap] =>
+  | "sizeq" :: fn :: len :: cap :: extra =>
+    if extra.length ≠ 0 && extra.length ≠ 2 then (s, "bad-op") else
     match findWrapper fn, len.toNat? with
     | some w, some n =>
       match helperSpecs.find? (fun h => h.name == w.helper), w.helper == "move_vector_to_array_of_c_ptrs" with
